@@ -37,7 +37,8 @@ RULE = ("(a) seeded traces of 0-12 events (reports of the three severities with 
         "(word lists / operand lists continued after a comma, operand on the next line), share a line, or use legacy spellings, so that every warning "
         "kind of WARNING_CLASSES['all'] is displayed under both formats x (none, -Wall, -Wno-all, -Wdefault, each single name, -Wall -Wno-name); plus planted "
         "write faults (make_* path in a missing directory / a directory, before or after a good one; -o or listing target a directory or in a missing "
-        "directory; missing / directory source; unknown --charset), the only inputs on which the two known-finding signatures may be used; plus an encoding "
+        "directory; missing / directory source; unknown --charset; an image of 65536 bytes or more for make_bin / make_bk0010_rom / make_wav / make_turbo_wav / -o x.bin, "
+        "which fails only when the output is emitted), every potential output pre-existing with sentinel content in half of them; these are the only inputs on which the two known-finding signatures may be used; plus an encoding "
         "stream: programs whose diagnostics print non-ASCII or undecodable file names and quoted non-ASCII literals, under stdout encodings utf-8 / ascii / "
         "latin-1 / C locale (with and without UTF-8 mode), each under both formats x -W selections. non-trivial = distinct (fault kinds, warning kinds, selector, -W list, format) with >= 1 planted fault or warning, "
         "or a distinct trace containing an error-severity report")
@@ -125,6 +126,7 @@ FAULTS = [
     ("call-as-value", "eval", "error", "unexpected-value", ["ca{u} = 1", "cb{u} = 2", ".word ca{u}(cb{u})"]),
     ("unencodable-character", "eval", "error", "invalid-character", ['.ascii "€"', ".even"]),
     ("tape-name-too-long", "eval", "error", "too-long-string", ['make_wav "tn{u}.wav", "12345678901234567"']),
+    ("tape-name-unencodable", "eval", "error", "invalid-character", ['make_wav "tu{u}.wav", "имя€"']),
     ("user-error", "eval", "error", "user-error", [".error"]),
     ("missing-include", "eval", "error", "io-error", ['.include "nosuch{u}.mac"']),
     ("missing-insert", "eval", "error", "io-error", ['insert_file "nosuch{u}.bin"']),
@@ -465,7 +467,7 @@ def make_family(rng, fi, gi0, wnames):
     for sel in SELECTORS:
         for lst in (False, True):
             l2, sel_argv, expected = apply_selector(rng, lines, sel, lst)
-            decoys = [e for e in expected if rng.random() < 0.5] if rng.random() < 0.5 else []
+            decoys = list(expected) if kinds else ([e for e in expected if rng.random() < 0.5] if rng.random() < 0.5 else [])
             variants = [("bare", []), (rng.choice(["bare", "graphical"]), w_selection(rng, wnames))]
             groups.append({"gi": gi0 + len(groups), "files": {"a.mac": "\n".join(l2) + "\n"}, "adir": adir, "decoys": decoys, "kinds": kinds,
                            "wids": wids, "sel": sel, "lst": lst, "sel_argv": sel_argv, "expected": expected, "variants": variants, "family": fi,
@@ -495,7 +497,10 @@ def make_group(rng, gi, wnames, tier):
     if rng.random() < 0.25:
         # a second source file linked after the first one (valid code, its own labels)
         files["b.mac"] = "\n".join(gen_base(rng, "b")) + "\n"
-    decoys = [e for e in expected if rng.random() < 0.5] if rng.random() < 0.6 else []
+    if kinds:
+        decoys = list(expected)        # a failing run: every potential output pre-exists with sentinel content that must survive byte for byte
+    else:
+        decoys = [e for e in expected if rng.random() < 0.5] if rng.random() < 0.6 else []
     nvar = 4 if tier == "quick" else 6
     variants = [("bare", []), ("graphical", [])]
     while len(variants) < nvar:
@@ -572,7 +577,11 @@ def make_display_group(rng, di, gi, wnames):
 
 # planted WRITE faults (known findings): shape, description
 WRITE_FAULTS = ["make-missing-dir-after-good", "make-missing-dir-before-good", "make-directory-target", "make-bad-plus-o-lst",
-                "o-missing-dir", "o-directory", "lst-directory-after-o", "lst-directory-after-make", "source-missing", "source-directory", "bad-charset"]
+                "o-missing-dir", "o-directory", "lst-directory-after-o", "lst-directory-after-make", "source-missing", "source-directory", "bad-charset",
+                # failures that only arise when the output is emitted: the image does not fit the container
+                "make-bin-oversize", "make-rom-oversize", "make-wav-oversize", "make-turbo-oversize", "make-raw-plus-bin-oversize", "o-bin-oversize",
+                "o-bin-oversize-lst"]
+OVERSIZE = [".blkb 65535.", ".byte 1"]
 KNOWN_A = "write-error-leaves-earlier-outputs"
 KNOWN_B = "cli-write-failure-exits-without-diagnostic"
 
@@ -617,8 +626,25 @@ def make_writefault_group(rng, wi, gi, wnames):
         argv = ["-o", "out.bin"]; srcs = ["adir", "a.mac"]; dirs = ["adir"]; env["pre"] = True; slots["out"] = "out.bin"
     elif shape == "bad-charset":
         argv = ["--charset", "no-such-charset", "-o", "out.bin"]; env["pre"] = True; slots["out"] = "out.bin"
+    elif shape in ("make-bin-oversize", "make-rom-oversize", "make-wav-oversize", "make-turbo-oversize"):
+        d = {"make-bin-oversize": 'make_bin "big.bin"', "make-rom-oversize": 'make_bk0010_rom "big.bin"',
+             "make-wav-oversize": 'make_wav "big.bin", "TAPE"', "make-turbo-oversize": 'make_turbo_wav "big.bin", "TAPE"'}[shape]
+        lines = [d] + lines + OVERSIZE
+        env["make"] = ['WReported "value-out-of-bounds"']; slots["makes"] = ["big.bin"]
+    elif shape == "make-raw-plus-bin-oversize":
+        lines = ['make_raw "whole.raw"', 'make_bin "big.bin"'] + lines + OVERSIZE
+        env["make"] = ["WOk", 'WReported "value-out-of-bounds"']; slots["makes"] = ["whole.raw", "big.bin"]
+    elif shape == "o-bin-oversize":
+        lines = lines + OVERSIZE
+        argv = ["-o", "big.bin"]; env["out"] = "PFail"; slots["out"] = "big.bin"
+    elif shape == "o-bin-oversize-lst":
+        lines = lines + OVERSIZE
+        argv = ["-o", "big.bin", "--lst"]; env["out"] = "PFail"; env["lst"] = "POk"; slots["out"] = "big.bin"; slots["lst"] = "big.lst"
     variants = [("bare", []), ("graphical", []), (rng.choice(["bare", "graphical"]), w_selection(rng, wnames))]
-    return {"gi": gi, "files": {"a.mac": "\n".join(lines) + "\n"}, "adir": dirs, "decoys": [], "kinds": [], "wids": wids, "sel": "write-fault:" + shape,
+    # every potential output that can pre-exist does, with sentinel content: a failed write must not touch it
+    decoys = [pth for pth in slots["makes"] + [slots["out"], slots["lst"]]
+              if pth and pth not in dirs and not pth.startswith("nodir/") and (wi // len(WRITE_FAULTS)) % 2 == 0]
+    return {"gi": gi, "files": {"a.mac": "\n".join(lines) + "\n"}, "adir": dirs, "decoys": decoys, "kinds": [], "wids": wids, "sel": "write-fault:" + shape,
             "lst": "--lst" in argv, "sel_argv": argv, "expected": [], "variants": variants, "slots": slots, "env": env, "writefault": shape, "sources": srcs}
 
 
@@ -645,9 +671,15 @@ def known_signature(g, run, probs):
     shape = g.get("writefault")
     if not shape or not probs:
         return None
-    sl = g["slots"]
-    allowed_left = set(sl["makes"]) | {sl["out"], sl["lst"]}
-    left_ok = set(run["changed"]) <= allowed_left and not run["removed"]
+    sl, env = g["slots"], g["env"]
+    # what the known findings allow to be left behind: exactly the files whose own write succeeded (model: c_written)
+    pred = [pth for pth, w in zip(sl["makes"], env["make"]) if w == "WOk"]
+    if all(w == "WOk" for w in env["make"]) and not env["pre"]:
+        if env["out"] == "POk":
+            pred.append(sl["out"])
+        if env["out"] in ("POk", "PNone") and env["lst"] == "POk":
+            pred.append(sl["lst"])
+    left_ok = sorted(run["changed"]) == sorted(pred) and not run["removed"]
     errs = [x if isinstance(x, bool) else x[0] for x in run["shown"]]
     if shape.startswith("make-"):
         if run["status"] == 1 and any(errs) and left_ok and run["changed"] and all(p.startswith("failed run created") for p in probs):
